@@ -780,6 +780,24 @@ def op_copy(E, m, S):
     return new
 
 
+def op_solver_switch(E, m, S):
+    """model.solver = <another interface> (the contract stub's twin on symbolic paths, glpk <-> glpk_exact on replays), given
+    as interface module, as name, or as the interface the model already has (documented no-op)"""
+    how = E.pick(S.tag("as"), ["module", "name", "same-interface"])
+    if E.symbolic:
+        from . import symlp
+        cur_twin = m.problem is symlp.TWIN
+        other = symlp if cur_twin else symlp.TWIN
+        name = "symlp" if cur_twin else "symlp_twin"
+    else:
+        import optlang
+        cur_exact = "exact" in m.problem.__name__
+        other = optlang.glpk_interface if cur_exact else optlang.glpk_exact_interface
+        name = "glpk" if cur_exact else "glpk_exact"
+    target = {"module": other, "name": name, "same-interface": m.problem}[how]
+    _try(S, "solver=", lambda: setattr(m, "solver", target), ref=IDENT, how=how)
+
+
 def op_merge(E, m, S):
     other = Model("other")
     a, z = Metabolite("A", compartment="c"), Metabolite("Z", compartment="c")
@@ -857,6 +875,7 @@ OPS = {
     "copy": (op_copy, False, False),
     "detached_edit": (op_detached_edit, False, False),
     "fix_objective": (op_fix_objective, True, False),
+    "solver_switch": (op_solver_switch, True, False),
 }
 SUB = [k for k, v in OPS.items() if v[2]]
 REVERSIBLE = [k for k, v in OPS.items() if v[1]]
